@@ -10,7 +10,8 @@ from .common import F_QUAL, asserts_in, calls, cfg_of, construct, loc, short
 from .grouped import _flatten_conditions, check_append_absent
 
 EXPLANATION = (
-    "Decides on ChainedDiscretizer's current source: R-append-absent (no append of a value that may "
+    "Decides on ChainedDiscretizer's current source: R-thresholds also requires the recount after each level to be an unrestricted value_counts of the working column (a reindex on the groups of the level hides values attached to a later level directly); R-position-truthiness (the position of a group's highest "
+    "known member amongst the known values is never tested by truthiness: 0 is the first value); R-append-absent (no append of a value that may "
     "already be a member: the D8 defect class); R-thresholds (a value is kept iff frequency >= "
     "min_freq, non-strict, against self.min_freq; the missing-value sentinel is always kept; "
     "frequencies are normalised counts over all rows, NaN filled first); R-merge-target (rare values "
@@ -25,7 +26,7 @@ EXPLANATION = (
     " Also R-string-form (numeric columns meet the hierarchy through StringDiscretizer's string form: str(int(v)) exactly for integral floats, str(v) otherwise)."
 )
 NOT_DECIDED = "which values end up merged on given data; pandas value_counts/select semantics"
-FLOORS = {"R-append-absent": 4, "R-thresholds": 3, "R-merge-target": 7, "R-unknown-exhaustive": 5, "R-known-values-kept": 3, "R-select-nonempty": 1, "R-string-form": 2}
+FLOORS = {"R-append-absent": 4, "R-thresholds": 3, "R-merge-target": 7, "R-unknown-exhaustive": 5, "R-known-values-kept": 3, "R-select-nonempty": 1, "R-string-form": 2, "R-position-truthiness": 1}
 
 CLS = "ChainedDiscretizer"
 
@@ -95,6 +96,31 @@ def rule_thresholds(ctx):
     )
     ctx.ob(R, construct(fi, "frequencies are shares of all rows (normalize=True after NaN were filled with str_nan)"), ok3 and filled, loc(fi, vcs[0] if vcs else None),
            "" if (ok3 and filled) else "value_counts must be normalised and missing values filled before counting")
+
+
+def rule_recount_all_values(ctx):
+    """After each level the frequencies are recounted over *every* value of the working column: the next
+    level reads the frequency of values of any earlier level (a value attached to a later level directly,
+    skipping the intermediate one, is still a raw value of the column).  A recount restricted to the
+    groups of the level just processed (reindex / loc / subscript on the counts) makes such a value look
+    absent, and it is merged into its ancestor however frequent it is."""
+    fi = ctx.repo.find_function(f"{F_QUAL}::{CLS}.fit")
+    R = "R-thresholds"
+    par = {}
+    for n in ast.walk(fi.node):
+        for ch in ast.iter_child_nodes(n):
+            par[id(ch)] = n
+    vcs = [c for c in calls(fi, "value_counts")]
+    bare = [c for c in vcs if isinstance(par.get(id(c)), ast.Assign)]
+    in_loop = []
+    for l in walk_no_nested(fi.node):
+        if isinstance(l, ast.For) and "chained_orders" in unparse(l.iter):
+            in_loop += [c for c in bare if any(x is c for x in ast.walk(l))]
+    restricted = [c for c in vcs if c not in bare]
+    ok = bool(in_loop) and not restricted
+    ctx.ob(R, construct(fi, "after each level the frequencies of all values of the working column are recounted (unrestricted value_counts)"), ok, loc(fi, restricted[0] if restricted else (vcs[0] if vcs else None)),
+           "" if ok else ("no plain `frequencies = <column>.value_counts(normalize=True)` inside the loop over the levels" if not restricted else
+                          f"`{short(par.get(id(restricted[0])), 80)}` restricts the counts: a value that is not a group of this level is taken for absent at the next one and merged although frequent"))
 
 
 def rule_merge_target(ctx):
@@ -345,6 +371,7 @@ def rule_known_values(ctx):
 def check(ctx):
     check_append_absent(ctx, "R-append-absent", select=lambda fi: fi.cls is not None and fi.cls.name == CLS)
     rule_thresholds(ctx)
+    rule_recount_all_values(ctx)
     rule_working_column(ctx)
     rule_string_conversion(ctx)
     rule_merge_target(ctx)
@@ -355,6 +382,10 @@ def check(ctx):
     quant.check_select_nonempty(ctx, "R-select-nonempty", select_fn=lambda fi: fi.cls is not None and fi.cls.name == CLS)
     from . import c04
 
+    from .truthiness import check_position_truthiness
+
+    # the position of a level's highest known member (known_values.index(..)) is 0 when the group hangs under the first value
+    check_position_truthiness(ctx, "R-position-truthiness", [fi for fi in ctx.repo.all_functions() if fi.cls is not None and fi.cls.name == CLS])
     c04.rule_string_form(ctx)  # numeric columns are matched with the hierarchy through StringDiscretizer's string form: str(int(v)) for integral floats, str(v) otherwise
 
 
@@ -365,6 +396,7 @@ MUTANTS = [
     M("level loop stops when nothing was moved", [(F_QUAL, "                # updating frequencies of each modality for the next ordering\n", "                if not any(to_input.any() for to_input in df_to_input):\n                    break\n\n                # updating frequencies of each modality for the next ordering\n")], "R-merge-target", "no level is skipped"),
     M("unknown values looked up in the feature's own order", [(F_QUAL, "                if value not in self.known_values and value != self.str_nan", "                if value not in order.values() and value != self.str_nan")], "R-unknown-exhaustive", "outside the hierarchy"),
     M("levels validated against the previous level only", [(F_QUAL, "                    if value not in known_values and value != next_group", "                    if value not in self.chained_orders[n].values() and value != next_group")], "R-known-values-kept", "cumulated"),
+    M("next group inserted only when its highest known member is not the first value", [(F_QUAL, "                highest_index = known_values.index(next_known[-1])\n", "                highest_index = known_values.index(next_known[-1])\n                if not highest_index:\n                    continue\n")], "R-position-truthiness", "highest_index"),
     M("strict frequency threshold", [(F_QUAL, "to_keep = list(values[frequencies >= self.min_freq]) + [", "to_keep = list(values[frequencies > self.min_freq]) + [")], "R-thresholds", "kept iff", quick=True),
     M("missing values no longer kept apart", [(F_QUAL, "to_keep = list(values[frequencies >= self.min_freq]) + [\n                    self.str_nan,\n                ]", "to_keep = list(values[frequencies >= self.min_freq])")], "R-thresholds", "sentinel"),
     M("absolute counts compared with min_freq", [(F_QUAL, "            frequencies = x_copy[feature].value_counts(normalize=True)\n\n            # iterating over each specified orders", "            frequencies = x_copy[feature].value_counts()\n\n            # iterating over each specified orders")], "R-thresholds", "shares"),
